@@ -143,7 +143,8 @@ StepJudge(r) ==
            /\ e.kind = "gate" \/ Chk(stOK, "C05|" \o q.op \o "|status|" \o Ctx(q) \o "|" \o p.st \o "/" \o h.st, <<q, e.errs>>)
            /\ e.kind = "gate" \/ ~stOK \/ Chk(fieldsOK, "C05|" \o q.op \o "|reply|" \o ReplyDiff(p, h) \o "|" \o cls, <<q, [x \in DOMAIN p \ {"ch", "rm", "och", "orm"} |-> p[x]], [x \in DOMAIN h \ {"ch", "rm", "och", "orm"} |-> h[x]]>>)
            /\ e.kind = "gate" \/ ~stOK \/ Chk(treeOK, "C05|" \o q.op \o "|tree", <<q, p.ch, h.ch, p.rm, h.rm>>)
-      /\ ~(q.op \in Creating /\ p.st = "OK" /\ q.uid # 0 /\ Has(p, "attr")) \/ Chk(p.attr.uid = q.uid /\ p.attr.gid = q.gid, "C05|" \o q.op \o "|owner", <<q, p.attr>>)
+      \* ownership of objects CREATED by the request (not of an existing file that CREATE merely opened)
+      /\ ~(q.op \in Creating /\ p.st = "OK" /\ q.uid # 0 /\ Has(p, "attr") /\ cal /\ Has(h, "attr") /\ h.attr.id \notin Ids(S)) \/ Chk(p.attr.uid = q.uid /\ p.attr.gid = q.gid, "C05|" \o q.op \o "|owner", <<q, p.attr>>)
       /\ ~(ExplicitTimes(q) /\ p.st = "OK" /\ Has(p, "times")) \/ Chk(p.times.atime = ToString(q.attr.atime) /\ p.times.mtime = ToString(q.attr.mtime), "C05|setattr|times", <<q.attr, p.times>>)
       /\ Chk(r.creds = creds0, "C05|" \o q.op \o "|creds", <<r.creds, creds0>>)
       /\ Chk(p.st # "PANIC", (IF X.seal THEN pfx ELSE "C05|" \o q.op \o "|") \o "panic", q)
